@@ -18,6 +18,7 @@ package main
 import (
 	"fmt"
 	"go/ast"
+	"go/printer"
 	"go/token"
 	"go/types"
 	"strings"
@@ -48,6 +49,11 @@ type glFunc struct {
 	// `x := <go expr>` whose Lean rendering is Option-valued (the Go call panics where the model has no value):
 	// Go statement text → (lean expr, result when there is no value)
 	partialDefs map[string][2]string
+	// `if err := <call>; err != nil { … }`: Go text of the init statement → Lean expression of type (state × Bool)
+	// (new state, "the call returned an error"); inside the statement `err != nil` is that Bool
+	effectInits map[string]string
+	// `if <init>; <cond> { … }` statements without effect on the model (logging, deadlines), keyed by the init text
+	noopIfInits map[string]bool
 	dropped     []string
 	failed      bool
 }
@@ -58,10 +64,24 @@ func (g *glFunc) bad(n ast.Node, what string) string {
 	return "sorry_untranslatable"
 }
 
+// exprText is types.ExprString, except that composite / function literals (which ExprString abbreviates) are printed in
+// full with white space collapsed
+func exprText(e ast.Expr) string {
+	t := types.ExprString(e)
+	if !strings.Contains(t, "…") {
+		return t
+	}
+	var sb strings.Builder
+	if err := printer.Fprint(&sb, token.NewFileSet(), e); err != nil {
+		return t
+	}
+	return strings.Join(strings.Fields(strings.ReplaceAll(sb.String(), ",\n", " ")), " ")
+}
+
 func nodeText(n ast.Node) string {
 	switch x := n.(type) {
 	case ast.Expr:
-		return types.ExprString(x)
+		return exprText(x)
 	case *ast.ExprStmt:
 		return types.ExprString(x.X)
 	case *ast.AssignStmt:
@@ -70,7 +90,7 @@ func nodeText(n ast.Node) string {
 			l = append(l, types.ExprString(e))
 		}
 		for _, e := range x.Rhs {
-			r = append(r, types.ExprString(e))
+			r = append(r, exprText(e))
 		}
 		return strings.Join(l, ", ") + " " + x.Tok.String() + " " + strings.Join(r, ", ")
 	case *ast.ReturnStmt:
@@ -87,6 +107,18 @@ func nodeText(n ast.Node) string {
 		return "go " + types.ExprString(x.Call)
 	case *ast.IncDecStmt:
 		return types.ExprString(x.X) + x.Tok.String()
+	case *ast.DeclStmt:
+		if gd, ok := x.Decl.(*ast.GenDecl); ok {
+			var names []string
+			for _, sp := range gd.Specs {
+				if vs, ok := sp.(*ast.ValueSpec); ok {
+					for _, n := range vs.Names {
+						names = append(names, n.Name)
+					}
+				}
+			}
+			return gd.Tok.String() + " " + strings.Join(names, ", ")
+		}
 	}
 	return fmt.Sprintf("%T", n)
 }
@@ -232,7 +264,25 @@ func (g *glFunc) block(stmts []ast.Stmt, cont string) string {
 		return g.bad(s, "assignment outside the translated subset")
 	case *ast.IfStmt:
 		if x.Init != nil {
-			return g.bad(s, "if with an init statement")
+			it := nodeText(x.Init)
+			if g.noopIfInits[it] {
+				g.dropped = append(g.dropped, "if "+it+"; "+types.ExprString(x.Cond)+" {…}")
+				return g.block(rest, cont)
+			}
+			if l, ok := g.effectInits[it]; ok && types.ExprString(x.Cond) == "err != nil" {
+				cp := *x
+				cp.Init = nil
+				old, had := g.exprs["err != nil"]
+				g.exprs["err != nil"] = "err"
+				out := "let (" + g.state + ", err) := " + l + "\n" + g.block(append([]ast.Stmt{&cp}, rest...), cont)
+				if had {
+					g.exprs["err != nil"] = old
+				} else {
+					delete(g.exprs, "err != nil")
+				}
+				return out
+			}
+			return g.bad(s, "if with an init statement that is not a declared leaf")
 		}
 		var elseStmts []ast.Stmt
 		hasElse := x.Else != nil
